@@ -12,7 +12,7 @@ import (
 
 func init() {
 	register(&Rule{ID: "C11.VISIT", Min: 17, Doc: "every child of an expression node is checked on every path (or a diagnostic is emitted): no sub-expression escapes the semantic and untrusted-input checks", Run: runC11Visit})
-	register(&Rule{ID: "C11.SITE", Min: 2, Doc: "the untrusted-input checker is enabled exactly for run: scripts and the script input of actions/github-script", Run: runC11Site})
+	register(&Rule{ID: "C11.SITE", Min: 3, Doc: "the untrusted-input checker is enabled exactly for run: scripts and the script input of actions/github-script", Run: runC11Site})
 	register(&Rule{ID: "C11.PAIR", Min: 2, Doc: "enter/leave callbacks of the untrusted checker bracket every node; Init before and OnVisitEnd after the walk", Run: runC11Pair})
 	register(&Rule{ID: "C11.ORDER", Min: 2, Doc: "the index of an index access is visited before its operand in both traversals", Run: runC11Order})
 	register(&Rule{ID: "C11.SAFE", Min: 1, Doc: "the sanitising functions are exactly contains, startsWith, endsWith", Run: runC11Safe})
@@ -622,6 +622,8 @@ func runC11Site(c *Ctx) {
 		c.bad("package|untrusted checker enabled", 0, "the untrusted-input check is never enabled")
 		return
 	}
+	var script *ssa.Function
+	withScript := 0
 	for _, s := range trues {
 		name := FuncName(s.fn)
 		if name != "(*RuleExpression).checkScriptString" {
@@ -629,6 +631,10 @@ func runC11Site(c *Ctx) {
 			continue
 		}
 		c.ok(name+"|enables the untrusted checker", s.call.Pos(), "only checkScriptString passes checkUntrusted=true")
+		if script != nil {
+			continue
+		}
+		script = s.fn
 		// callers of checkScriptString
 		for _, e := range p.callersOf(s.fn) {
 			if e.Site == nil {
@@ -640,28 +646,175 @@ func runC11Site(c *Ctx) {
 			construct := FuncName(e.Caller.Func) + "|script position"
 			switch {
 			case fs["ExecRun.Run"]:
-				c.ok(construct+" run:", e.Site.Pos(), "the run: script")
+				// whether every run: script gets here is decided below ("run: checked as a script")
 			case fs["Input.Value"]:
-				// must be guarded by the github-script prefix and the input name "script"
+				// guarded by the github-script prefix and the input name "script", and by nothing else that could leave
+				// the script of a github-script step unchecked
+				withScript++
 				hasPrefix, hasName := false, false
-				for ifi := range controllingConds(e.Site.Block()) {
-					if usesCall(ifi.Cond, "strings.HasPrefix", "actions/github-script@") {
+				extra := ""
+				for ifi, outcome := range controllingConds(e.Site.Block()) {
+					switch {
+					case outcome && usesCall(ifi.Cond, "strings.HasPrefix", "actions/github-script@"):
 						hasPrefix = true
-					}
-					if comparesWith(ifi.Cond, "script") && comparesLowerName(ifi.Cond) {
+					case outcome && comparesWith(ifi.Cond, "script") && comparesLowerName(ifi.Cond):
 						hasName = true
+					case structuralCond(ifi):
+					default:
+						extra = p.Pos(ifi.Pos())
+						if !ifi.Pos().IsValid() {
+							extra = p.Pos(ifi.Cond.Pos())
+						}
 					}
 				}
-				if hasPrefix && hasName {
-					c.ok(construct+" with.script", e.Site.Pos(), "only under uses: actions/github-script@... and input name script")
-				} else {
+				switch {
+				case !hasPrefix || !hasName:
 					c.bad(construct+" with.script", e.Site.Pos(), "a with: input is checked as a script without the guards `uses` starts with actions/github-script@ and key == script")
+				case extra != "":
+					c.bad(construct+" with.script", e.Site.Pos(), "the script input of actions/github-script is checked as a script only under a further condition (at "+extra+"): when it does not hold, untrusted inputs in the script are not reported")
+				default:
+					c.ok(construct+" with.script", e.Site.Pos(), "under uses: actions/github-script@... and input name script, and under no other condition")
 				}
 			default:
 				c.bad(construct, e.Site.Pos(), "checkScriptString is applied to something other than ExecRun.Run or a with: input")
 			}
 		}
 	}
+	if script == nil {
+		return
+	}
+	if withScript == 0 {
+		c.bad("(*RuleExpression).VisitStep|script position with.script", script.Pos(), "the script input of actions/github-script is never checked as a script")
+	}
+	// every run: script reaches the script check: where the strings of an *ExecRun are checked, its Run field is handed to
+	// checkScriptString on every path (apart from the paths on which the step or the script is nil)
+	nRun := 0
+	for _, fn := range p.Funcs {
+		if !inModule(fn) || fn.Blocks == nil || fn.Signature.Recv() == nil || pointeeName(fn.Signature.Recv().Type()) != "RuleExpression" {
+			continue
+		}
+		var execs []ssa.Value
+		eachInstr(fn, func(_ *ssa.BasicBlock, _ int, in ssa.Instruction) {
+			switch x := in.(type) {
+			case *ssa.TypeAssert:
+				if !x.CommaOk && typeStr(x.AssertedType) == "*ExecRun" {
+					execs = append(execs, x)
+				}
+			case *ssa.Extract:
+				if ta, ok := x.Tuple.(*ssa.TypeAssert); ok && x.Index == 0 && typeStr(ta.AssertedType) == "*ExecRun" {
+					execs = append(execs, x)
+				}
+			}
+		})
+		for _, e := range execs {
+			nRun++
+			construct := fmt.Sprintf("%s|run: checked as a script#%d", FuncName(fn), nRun)
+			if miss := runReachesScript(p, fn, e, script, 0); miss == "" {
+				c.ok(construct, e.Pos(), "on every path on which the step is a run: step with a script, ExecRun.Run is handed to checkScriptString")
+			} else {
+				c.bad(construct, e.Pos(), miss+": untrusted inputs in that run: script are not reported")
+			}
+		}
+	}
+	if nRun == 0 {
+		c.bad("(*RuleExpression).VisitStep|run: checked as a script", script.Pos(), "no function of the expression rule looks at the *ExecRun of a step: run: scripts are never checked for untrusted inputs")
+	}
+}
+
+// structuralCond: a condition that does not select among scripts: a nil test, the test of a type switch / comma-ok
+// assertion, the bound test of a range loop or the "more elements" flag of a map range.
+func structuralCond(ifi *ssa.If) bool {
+	if _, _, ok := nilTest(ifi); ok {
+		return true
+	}
+	switch x := ifi.Cond.(type) {
+	case *ssa.Extract:
+		switch x.Tuple.(type) {
+		case *ssa.TypeAssert:
+			return x.Index == 1
+		case *ssa.Next:
+			return x.Index == 0
+		}
+	case *ssa.BinOp:
+		return isRangeIndexCond(x)
+	}
+	return false
+}
+
+// runReachesScript: from the point where exec (an *ExecRun) is known, every path to a return hands exec.Run to the script
+// check, directly or by handing exec to a function of the rule for which the same holds. Paths on which exec or exec.Run
+// is nil are left out. Returns "" or a description of the path that misses the check.
+func runReachesScript(p *Prog, fn *ssa.Function, exec ssa.Value, script *ssa.Function, depth int) string {
+	defBlock := fn.Blocks[0]
+	if in, ok := exec.(ssa.Instruction); ok {
+		defBlock = in.Block()
+	}
+	if ex, ok := exec.(*ssa.Extract); ok {
+		if ta, ok := ex.Tuple.(*ssa.TypeAssert); ok && ta.CommaOk {
+			for _, ref := range *ta.Referrers() {
+				if okv, isEx := ref.(*ssa.Extract); isEx && okv.Index == 1 {
+					for _, r2 := range *okv.Referrers() {
+						if ifi, isIf := r2.(*ssa.If); isIf && len(ifi.Block().Succs[0].Preds) == 1 {
+							defBlock = ifi.Block().Succs[0]
+						}
+					}
+				}
+			}
+		}
+	}
+	isRun := func(v ssa.Value) bool {
+		f, base := fieldLoad(v)
+		return f == "ExecRun.Run" && base == exec
+	}
+	// blocks in which the script is handed on
+	done := map[*ssa.BasicBlock]bool{}
+	eachInstr(fn, func(b *ssa.BasicBlock, _ int, in ssa.Instruction) {
+		call, ok := in.(*ssa.Call)
+		if !ok {
+			return
+		}
+		g := staticCallee(&call.Call)
+		if g == nil {
+			return
+		}
+		for i, a := range call.Call.Args {
+			if g == script && i == 1 && isRun(a) {
+				done[b] = true
+			}
+			if a == exec && g != script && depth < 2 && inModule(g) && g.Blocks != nil && i < len(g.Params) && runReachesScript(p, g, g.Params[i], script, depth+1) == "" {
+				done[b] = true
+			}
+		}
+	})
+	// search for a return reached without it
+	seen := map[*ssa.BasicBlock]bool{defBlock: true}
+	work := []*ssa.BasicBlock{defBlock}
+	for len(work) > 0 {
+		b := work[len(work)-1]
+		work = work[:len(work)-1]
+		if done[b] {
+			continue
+		}
+		last := b.Instrs[len(b.Instrs)-1]
+		if ret, ok := last.(*ssa.Return); ok {
+			at := "the return at " + p.Pos(ret.Pos())
+			if !ret.Pos().IsValid() {
+				at = "the end of the function"
+			}
+			return "a path from the *ExecRun to " + at + " does not hand ExecRun.Run to checkScriptString"
+		}
+		skip := -1
+		if v, nilSucc, ok := nilTest(last); ok && (v == exec || isRun(v)) {
+			skip = nilSucc
+		}
+		for i, s := range b.Succs {
+			if i != skip && !seen[s] {
+				seen[s] = true
+				work = append(work, s)
+			}
+		}
+	}
+	return ""
 }
 
 func usesCall(v ssa.Value, fn, constArg string) bool {
